@@ -17,7 +17,7 @@ RULE = (
     "step budget on neighbors() calls), no repeats, first element is start, set(out) == least-fixpoint "
     "reachability computed independently, generator form == list form element by element (also when the generator is consumed partly, other traversals run, and it is then resumed), with ff_result the "
     "output == the unfiltered output restricted to accepted vertices; NotImplementedError exactly when a reached "
-    "vertex carries an unknown-class link under LNK_UNKNOWN_ERROR.  Every case is evaluated a second time on the same objects after a membership swap (while partly consumed generators of the first phase are still suspended) (one member out, one non-member in; no link touched).  A few worlds are scaled up: a chain of 260 / 300 vertices in front of the start vertex and / or 70 / 340 (thorough: 1300) further links at the start vertex or at the chain's head, the added vertices inside or outside the universe.  Vertices that are universes may contain other linked vertices of the graph.  Non-trivial = reach set >= 3 vertices and "
+    "vertex carries an unknown-class link under LNK_UNKNOWN_ERROR.  Every case is evaluated a second time on the same objects after a membership swap (while partly consumed generators of the first phase are still suspended) (one member out, one non-member in; no link touched).  ff_result answers with bools or with None / a truthy object; some links are themselves catalogued in unrelated universes (the `uni` argument speaks about vertices only).  A few worlds are scaled up: a chain of 260 / 300 vertices in front of the start vertex and / or 70 / 340 (thorough: 1300) further links at the start vertex or at the chain's head, the added vertices inside or outside the universe.  Vertices that are universes may contain other linked vertices of the graph.  Non-trivial = reach set >= 3 vertices and "
     "(a cycle among reached vertices, or a reached vertex has a non-member neighbour, or ff_via prunes a link at a "
     "reached vertex); distinct = distinct case value."
 )
